@@ -60,6 +60,11 @@ CHECKS = {
          "All small FASTA inputs (sequences up to length 5, 7 thorough; shuffle/reverse, concat on/off, enzymes) are model-checked and run through the real make_decoys with several RNG states; the written file, parsed by an independent reader, is accepted by TLC iff every decoy is a valid decoy of its target (relation, not function), targets precede decoys unchanged, and re-reading recovers names and sequences.",
          "Trusted: TLC, the driver's independent FASTA reader. Well-formed FASTA only.",
          "DESIGN.md §3 C18"),
+ "C05": ("model_checking",
+         "TLC model checking of Brew.tla / Confidence.tla with the configuration as free choices (invariant OutcomeIsF) and ThreadPool.tla (feasible completion orders, termination) + TLC trace validation (RunsTrace.tla) of groups of real runs of one input under many configurations",
+         "The models show that the outcome is a function of the input only, for every chunk size, worker count, completion order, tie order and merge-list order within the bounds. For random inputs the real brew / assign_confidence / read_pin are run under a reference configuration and under every prediction / confidence chunk size 1..n+1, rotating training-read / merge-sort / column- and row-scan chunk sizes, workers 1..4 with every pool-feasible completion order of the fold fits (generated by TLC, enforced through the recording Model subclass), text vs Parquet with row groups 1..n+5; TLC accepts a group iff every run fails exactly when the reference does and all outcomes are equal (scores exactly as rationals, real-learner scores within 2e-6, result files as row sets).",
+         "Trusted: TLC, schedule enforcement by condition variable (infeasible orders time out harmlessly), tie-free-in-group confidence inputs, pyarrow full-batch behaviour.",
+         "DESIGN.md §3 C05"),
 }
 PENDING = {}   # id -> reason (not_applicable)
 
